@@ -4,6 +4,7 @@
    it on the model and returns the flat transcript, which must equal the
    implementation's transcript.  Executable only; no proofs here. *)
 From Ice Require Import Base Spec Varint Chunk Postings Crc32 Footer Stored DocValues Dict Container.
+From Ice Require Builder.
 
 (* ---- parser over a flat list of numbers ---- *)
 Definition P (A : Type) := list N -> option (A * list N).
@@ -53,7 +54,8 @@ Inductive op :=
 | OContains (slot : N) (f t : bytes)
 | OFooter (slot : N) (file : bytes)
 | OLayout (slot : N) (dvflags : list bool)
-| OContainer (slot : N) (file : bytes).
+| OContainer (slot : N) (file : bytes)
+| OInterim (b : Batch).
 
 Definition piterop : P iter_op :=
   let%p k := pnum in
@@ -88,6 +90,7 @@ Definition pop : P op :=
   | 20 => let%p s := pnum in let%p b := pbytes in pret (OFooter s b)
   | 21 => let%p s := pnum in let%p fl := plist pbool in pret (OLayout s fl)
   | 22 => let%p s := pnum in let%p b := pbytes in pret (OContainer s b)
+  | 23 => let%p b := pbatch in pret (OInterim b)
   | _ => fun _ => None
   end.
 
@@ -323,6 +326,18 @@ Definition step (st : list Slot) (o : op) : list Slot * list N :=
            | _ => [4294967294; 1]
            end)
   | OLayout s fl => (st, layout (slot_full st s) fl)
+  | OInterim b =>
+      (* the statement-by-statement builder model (field numbering, counting pass, windows of
+         the backing arrays, per-document pass in input order of the map, the final walk) *)
+      (st, w_list (fun ft : bytes * list (bytes * list EPosting) =>
+                     w_bytes (fst ft) ++
+                     w_list (fun tp : bytes * list EPosting =>
+                               w_bytes (fst tp) ++
+                               w_list (fun p : EPosting =>
+                                         [ep_doc p; ep_freq p; ep_norm p] ++
+                                         w_list (fun l : ELoc => let '(f, (a, (b0, c))) := l in [f; a; b0; c]) (ep_locs p))
+                                      (snd tp)) (snd ft))
+                  (Builder.build_postings_model harness_norm (fun _ _ l => l) b))
   | OContainer s file =>
       (* the byte-exact loader models on the real bytes of the file *)
       (st, match parse_footer file with
